@@ -90,9 +90,17 @@ Proof.
   destruct Ho as [-> | ->]; [reflexivity|apply orb_true_r].
 Qed.
 
-Lemma rows_diff_loop_K R vr pvr : canvas R ->
+(* Wcond is what the repaired loop tests (Emit.clears_wrap) *)
+Lemma Wcond_clears R s' p' : Wcond R s' p' -> clears_wrap (gcols (g R)) s' p' = true.
+Proof.
+  intros (H2 & Hfw & Hnc). unfold clears_wrap, row_get.
+  destruct (N.leb_spec 2 (gcols (g R))); [|lia]. cbn [andb].
+  unfold fw in Hfw. destruct (get (cells p') (gcols (g R) - 2)); [|discriminate]. rewrite Hfw. cbn [andb].
+  destruct (get (cells s') (gcols (g R) - 2)) as [x|] eqn:G; [|reflexivity]. now rewrite (Hnc x eq_refl).
+Qed.
+
+Lemma rows_diff_loop_all R vr pvr : canvas R ->
   vrows_ok (gcols (g R)) vr -> vrows_ok (gcols (g R)) pvr ->
-  K10free (gcols (g R)) pvr vr ->
   len vr = grows (g R) -> len pvr = grows (g R) ->
   forall rest prest i w pw l r c a acc,
     (forall k, k < len rest -> get rest k = get vr (i + k)) ->
@@ -103,7 +111,8 @@ Lemma rows_diff_loop_K R vr pvr : canvas R ->
     (forall k, i <= k < grows (g R) -> get l k = get pvr k) ->
     (i = 0 -> w = false /\ pw = false) ->
     (1 <= i -> exists s' p' rp, get vr (i - 1) = Some s' /\ get pvr (i - 1) = Some p' /\ get l (i - 1) = Some rp /\
-                 w = wrapped s' /\ pw = wrapped p' /\ carry_ok R i r c s' p' rp) ->
+                 w = wrapped s' /\ pw = wrapped p' && negb (clears_wrap (gcols (g R)) s' p') /\
+                 carry_ok R i r c s' p' rp) ->
     exists ts r' c' a' l',
       rows_diff_loop (gcols (g R)) (zip rest prest) i w pw (r, c) a acc = Ok (acc ++ ts, (r', c'), a') /\
       plays (rcv R l r c a) ts (rcv R l' r' c' a') /\ cv R l' r' c' /\ pen_ok a' /\
@@ -111,7 +120,7 @@ Lemma rows_diff_loop_K R vr pvr : canvas R ->
       (exists s' p' rp, get vr (grows (g R) - 1) = Some s' /\ get pvr (grows (g R) - 1) = Some p' /\
          get l' (grows (g R) - 1) = Some rp /\ carry_ok R (grows (g R)) r' c' s' p' rp).
 Proof.
-  intros HR [Hvr Hvwi] [Hpvr Hpwi] HK Lvr Lpvr.
+  intros HR [Hvr Hvwi] [Hpvr Hpwi] Lvr Lpvr.
   pose proof (canvas_dims _ HR) as (D1 & D2 & _).
   induction rest as [|src rest IH]; intros prest i w pw l r c a acc Hseg Hpseg Hlp Hlen Hcv Pa Hdone Htodo Hz Hcar.
   - rewrite len_nil in Hlen. exists [], r, c, a, l. cbn [zip rows_diff_loop]. rewrite app_nil_r.
@@ -134,7 +143,8 @@ Proof.
               (exists lc, get (cells rp) (gcols (g R) - 1) = Some lc /\ has_contents lc || ccont lc = true) /\
               (wrapped rp = true \/ (r + 1 = i /\ c = gcols (g R) /\ (pw = true -> get (cells src) 0 <> get (cells prev) 0)))) /\
             (1 <= i -> exists s' p', get vr (i - 1) = Some s' /\ get pvr (i - 1) = Some p' /\ get l (i - 1) = Some rp /\
-                          w = wrapped s' /\ pw = wrapped p' /\ carry_ok R i r c s' p' rp)) as (rp & Hw & Hrp).
+                          w = wrapped s' /\ pw = wrapped p' && negb (clears_wrap (gcols (g R)) s' p') /\
+                          carry_ok R i r c s' p' rp)) as (rp & Hw & Hrp).
     { destruct (N.eq_dec i 0) as [->|Hi0].
       - exists prev. destruct (Hz eq_refl) as [-> _]. split; [discriminate|lia].
       - destruct (Hcar ltac:(lia)) as (s' & p' & rp & G1 & G2 & G3 & Ew & Epw & (Ec & Cf & Ct)).
@@ -143,8 +153,9 @@ Proof.
         pose proof (Forall_get _ _ _ _ Hvr G1) as S'ok. pose proof (Forall_get _ _ _ _ Hvwi G1) as S'wi.
         split; [rewrite Ec; exact (wrapinv_last _ s' (sr_len _ _ S'ok) S'wi Ewt)|].
         destruct (Ct Ewt) as [Ef|(Ef & E1 & E2 & Hwc)]; [now left|]. right. split; [exact E1|]. split; [exact E2|].
-        intros Epwt. rewrite Epw in Epwt. destruct (Hwc Epwt) as (H2 & Hfw & Hnc).
-        apply (HK (i - 1) p' s' prev src G2 G1); auto; replace (i - 1 + 1) with i by lia; assumption. }
+        (* the repaired loop: prev_wrapping is switched off exactly when the flag may have been lost *)
+        intros Epwt. exfalso. rewrite Epw in Epwt. apply andb_prop in Epwt as [Ewp Ecl].
+        rewrite (Wcond_clears R s' p' (Hwc Ewp)) in Ecl. discriminate. }
     destruct (row_diff_wrap R i src prev w pw l rp r c a ltac:(lia) Sok Pok Swi Pwi Hcv Pa Gi Hw)
       as (ts & r1 & c1 & a1 & ri & -> & P1 & C1 & Pa1 & Eci & Cf1 & Ct1).
     cbn [bind].
@@ -157,7 +168,7 @@ Proof.
     assert (forall k, k <> i -> k + 1 <> i -> get l1 k = get l k) as Oth.
     { intros k H1 H2. unfold l1. rewrite get_set_at. destruct (N.eqb_spec k i); [lia|].
       unfold wLfin, wflagged. destruct w; [|reflexivity]. rewrite get_set_at. destruct (N.eqb_spec k (i - 1)); [lia|reflexivity]. }
-    destruct (IH prest (i + 1) (wrapped src) (wrapped prev) l1 r1 c1 a1 (acc ++ ts))
+    destruct (IH prest (i + 1) (wrapped src) (wrapped prev && negb (clears_wrap (gcols (g R)) src prev)) l1 r1 c1 a1 (acc ++ ts))
       as (ts2 & r2 & c2 & a2 & l2 & E2 & P2 & C2 & Pa2 & Hall & Hlastrow); auto.
     { intros k Hk. specialize (Hseg (k + 1) ltac:(lia)). rewrite get_cons in Hseg.
       destruct (N.eqb_spec (k + 1) 0); [lia|]. replace (k + 1 - 1) with k in Hseg by lia.
@@ -190,9 +201,8 @@ Qed.
 (* ------------------------------------------------------------------ *)
 (* 3. the grid part of contents_diff                                    *)
 (* ------------------------------------------------------------------ *)
-Theorem grid_diff_plays_K R x px vr pvr pa :
+Theorem grid_diff_plays_all R x px vr pvr pa :
   canvas R -> vrows_ok (gcols (g R)) vr -> vrows_ok (gcols (g R)) pvr ->
-  K10free (gcols (g R)) pvr vr ->
   (forall src, get vr (grows (g R) - 1) = Some src -> wrapped src = false) ->
   visible_rows x = Ok vr -> visible_rows px = Ok pvr ->
   len vr = grows (g R) -> len pvr = grows (g R) -> gcols x = gcols (g R) ->
@@ -203,9 +213,9 @@ Theorem grid_diff_plays_K R x px vr pvr pa :
     plays (rcv R pvr (prow px) (pcol px) pa) ts (rcv R2 vr (prow x) (pcol x) a') /\
     cv R2 vr (prow x) (pcol x) /\ same_base R R2 /\ pen_ok a'.
 Proof.
-  intros HR Hvr Hpvr HK Hlast Hv Hpv Lvr Lpvr Hgc Hpr Hpc Hcv Pa.
+  intros HR Hvr Hpvr Hlast Hv Hpv Lvr Lpvr Hgc Hpr Hpc Hcv Pa.
   pose proof (canvas_dims _ HR) as (D1 & D2 & _).
-  destruct (rows_diff_loop_K R vr pvr HR Hvr Hpvr HK Lvr Lpvr vr pvr 0 false false pvr (prow px) (pcol px) pa [])
+  destruct (rows_diff_loop_all R vr pvr HR Hvr Hpvr Lvr Lpvr vr pvr 0 false false pvr (prow px) (pcol px) pa [])
     as (ts1 & r1 & c1 & a1 & l1 & E1 & P1 & C1 & Pa1 & Hall & (s' & p' & rp & G1 & G2 & G3 & (Ec & Cf & _))).
   { intros k Hk. replace (0 + k) with k by lia. reflexivity. }
   { intros k Hk. replace (0 + k) with k by lia. reflexivity. }
@@ -229,11 +239,26 @@ Proof.
   exists (ts1 ++ ts2), a1, R2. split; [reflexivity|]. split; [eapply plays_app; eauto|]. auto.
 Qed.
 
+(* the statement of the previous stage (the K10free hypothesis is no longer needed) *)
+Corollary grid_diff_plays_K R x px vr pvr pa :
+  canvas R -> vrows_ok (gcols (g R)) vr -> vrows_ok (gcols (g R)) pvr ->
+  K10free (gcols (g R)) pvr vr ->
+  (forall src, get vr (grows (g R) - 1) = Some src -> wrapped src = false) ->
+  visible_rows x = Ok vr -> visible_rows px = Ok pvr ->
+  len vr = grows (g R) -> len pvr = grows (g R) -> gcols x = gcols (g R) ->
+  prow x < grows (g R) -> pcol x <= gcols (g R) ->
+  cv R pvr (prow px) (pcol px) -> pen_ok pa ->
+  exists ts a' R2,
+    grid_contents_diff x px pa = Ok (ts, a') /\
+    plays (rcv R pvr (prow px) (pcol px) pa) ts (rcv R2 vr (prow x) (pcol x) a') /\
+    cv R2 vr (prow x) (pcol x) /\ same_base R R2 /\ pen_ok a'.
+Proof. intros HR Hvr Hpvr _. now apply grid_diff_plays_all. Qed.
+
 (* ------------------------------------------------------------------ *)
 (* 4. contents_diff / state_diff on a receiver that shows P             *)
 (* ------------------------------------------------------------------ *)
-Theorem contents_diff_plays_K S P R vr pvr ts :
-  source_ok S vr -> source_ok P pvr -> K10free (gcols (cur S)) pvr vr ->
+Theorem contents_diff_plays_all S P R vr pvr ts :
+  source_ok S vr -> source_ok P pvr ->
   (forall src, get vr (grows (cur S) - 1) = Some src -> wrapped src = false) ->
   grows (cur S) = grows (cur P) -> gcols (cur S) = gcols (cur P) ->
   shows P R pvr -> contents_diff_t S P = Ok ts ->
@@ -241,7 +266,7 @@ Theorem contents_diff_plays_K S P R vr pvr ts :
              keypad R' = keypad R /\ appcur R' = appcur R /\ paste R' = paste R /\
              mmode R' = mmode R /\ menc R' = menc R.
 Proof.
-  intros HS HP HK Hlast Er Ec [CR B1 B2 B3 B4 B5 B6 B7] Ets.
+  intros HS HP Hlast Er Ec [CR B1 B2 B3 B4 B5 B6 B7] Ets.
   destruct (source_dims _ _ HS) as (Lvr & Hpr & Hpc). destruct (source_dims _ _ HP) as (Lpvr & _ & _).
   set (R1 := with_hide R (hide S)).
   assert (canvas R1) as CR1 by (apply canvas_with_hide; exact CR).
@@ -255,14 +280,13 @@ Proof.
   change (g R1) with (g R) in Hcv.
   assert (vrows_ok (gcols (g R)) vr) as Q1 by (rewrite B2, <- Ec; apply (so_rows _ _ HS)).
   assert (vrows_ok (gcols (g R)) pvr) as Q2 by (rewrite B2; apply (so_rows _ _ HP)).
-  assert (K10free (gcols (g R)) pvr vr) as Q0 by (rewrite B2, <- Ec; exact HK).
   assert (forall src, get vr (grows (g R) - 1) = Some src -> wrapped src = false) as QL by (rewrite B1, <- Er; exact Hlast).
   assert (len vr = grows (g R)) as Q3 by congruence.
   assert (len pvr = grows (g R)) as Q4 by congruence.
   assert (gcols (cur S) = gcols (g R)) as Q5 by congruence.
   assert (prow (cur S) < grows (g R)) as Q6 by (rewrite B1, <- Er; exact Hpr).
   assert (pcol (cur S) <= gcols (g R)) as Q7 by (rewrite B2, <- Ec; exact Hpc).
-  destruct (grid_diff_plays_K R1 (cur S) (cur P) vr pvr (pen P) CR1 Q1 Q2 Q0 QL (so_vis _ _ HS) (so_vis _ _ HP)
+  destruct (grid_diff_plays_all R1 (cur S) (cur P) vr pvr (pen P) CR1 Q1 Q2 QL (so_vis _ _ HS) (so_vis _ _ HP)
               Q3 Q4 Q5 Q6 Q7 Hcv (so_pen _ _ HP)) as (ts1 & a1 & R2 & E1 & P1 & C1 & SB & Pa1).
   unfold contents_diff_t in Ets. rewrite E1 in Ets. cbn [bind] in Ets. inv Ets.
   exists (rcv R2 vr (prow (cur S)) (pcol (cur S)) (pen S)).
@@ -277,22 +301,55 @@ Proof.
   - cbn [rcv with_pen with_g keypad appcur paste mmode menc]. rewrite SBk, SBa, SBp, SBm, SBe. repeat split; reflexivity.
 Qed.
 
-Theorem state_diff_plays_K S P R vr pvr ts :
-  source_ok S vr -> source_ok P pvr -> K10free (gcols (cur S)) pvr vr ->
+Theorem state_diff_plays_all S P R vr pvr ts :
+  source_ok S vr -> source_ok P pvr ->
   (forall src, get vr (grows (cur S) - 1) = Some src -> wrapped src = false) ->
   grows (cur S) = grows (cur P) -> gcols (cur S) = gcols (cur P) ->
   shows P R pvr -> same_modes P R -> state_diff_t S P = Ok ts ->
   exists R', plays R ts R' /\ shows S R' vr /\ same_modes S R'.
 Proof.
-  intros HS HP HK Hlast Er Ec Sh (M1 & M2 & M3 & M4 & M5) Ets.
+  intros HS HP Hlast Er Ec Sh (M1 & M2 & M3 & M4 & M5) Ets.
   unfold state_diff_t in Ets. bind_inv Ets. inv Ets.
-  destruct (contents_diff_plays_K S P R vr pvr v HS HP HK Hlast Er Ec Sh E)
+  destruct (contents_diff_plays_all S P R vr pvr v HS HP Hlast Er Ec Sh E)
     as (R1 & P1 & [A0 A1 A2 A3 A4 A5 A6 A7] & K1 & K2 & K3 & K4 & K5).
   exists (with_modes R1 S). split; [|split].
   - eapply plays_app; [exact P1|]. apply plays_input_mode_diff; congruence.
   - split; auto. now apply canvas_with_modes.
   - repeat split; reflexivity.
 Qed.
+
+Corollary state_diff_obs_all S P R ts :
+  source_ok S (live (cur S)) -> source_ok P (live (cur P)) ->
+  (forall src, get (live (cur S)) (grows (cur S) - 1) = Some src -> wrapped src = false) ->
+  sb_off (cur S) = 0 ->
+  grows (cur S) = grows (cur P) -> gcols (cur S) = gcols (cur P) ->
+  shows P R (live (cur P)) -> same_modes P R -> state_diff_t S P = Ok ts ->
+  exists R', play false R ts = Ok (R', []) /\ canvas R' /\ obs R' = obs S /\
+             shows S R' (live (cur S)) /\ same_modes S R'.
+Proof.
+  intros HS HP Hlast Off Er Ec Sh Sm Ets.
+  destruct (state_diff_plays_all S P R _ _ ts HS HP Hlast Er Ec Sh Sm Ets) as (R' & P' & Sh' & Sm').
+  exists R'. split; [exact P'|]. split; [apply Sh'|]. split; [now apply shows_obs|]. auto.
+Qed.
+
+(* the statements of the previous stage (the K10free hypothesis is no longer needed) *)
+Corollary contents_diff_plays_K S P R vr pvr ts :
+  source_ok S vr -> source_ok P pvr -> K10free (gcols (cur S)) pvr vr ->
+  (forall src, get vr (grows (cur S) - 1) = Some src -> wrapped src = false) ->
+  grows (cur S) = grows (cur P) -> gcols (cur S) = gcols (cur P) ->
+  shows P R pvr -> contents_diff_t S P = Ok ts ->
+  exists R', plays R ts R' /\ shows S R' vr /\
+             keypad R' = keypad R /\ appcur R' = appcur R /\ paste R' = paste R /\
+             mmode R' = mmode R /\ menc R' = menc R.
+Proof. intros HS HP _. now apply contents_diff_plays_all. Qed.
+
+Corollary state_diff_plays_K S P R vr pvr ts :
+  source_ok S vr -> source_ok P pvr -> K10free (gcols (cur S)) pvr vr ->
+  (forall src, get vr (grows (cur S) - 1) = Some src -> wrapped src = false) ->
+  grows (cur S) = grows (cur P) -> gcols (cur S) = gcols (cur P) ->
+  shows P R pvr -> same_modes P R -> state_diff_t S P = Ok ts ->
+  exists R', plays R ts R' /\ shows S R' vr /\ same_modes S R'.
+Proof. intros HS HP _. now apply state_diff_plays_all. Qed.
 
 Corollary state_diff_obs_K S P R ts :
   source_ok S (live (cur S)) -> source_ok P (live (cur P)) ->
@@ -303,8 +360,4 @@ Corollary state_diff_obs_K S P R ts :
   shows P R (live (cur P)) -> same_modes P R -> state_diff_t S P = Ok ts ->
   exists R', play false R ts = Ok (R', []) /\ canvas R' /\ obs R' = obs S /\
              shows S R' (live (cur S)) /\ same_modes S R'.
-Proof.
-  intros HS HP HK Hlast Off Er Ec Sh Sm Ets.
-  destruct (state_diff_plays_K S P R _ _ ts HS HP HK Hlast Er Ec Sh Sm Ets) as (R' & P' & Sh' & Sm').
-  exists R'. split; [exact P'|]. split; [apply Sh'|]. split; [now apply shows_obs|]. auto.
-Qed.
+Proof. intros HS HP _. now apply state_diff_obs_all. Qed.
